@@ -109,6 +109,10 @@ func (p *AV1Payloader) Payload(mtu uint16, payload []byte) (payloads [][]byte) {
 				// the OBU being read now opens the new packet: its layer ids are the packet's
 				currentPacketOBUHeader = obuHeader.ExtensionHeader
 			}
+		} else if needNewPacket {
+			// nothing is pending (the OBUs in between were not transmitted): the packet break still applies
+			startWithNewPacket = true
+			currentPacketOBUHeader = obuHeader.ExtensionHeader
 		}
 
 		// The temporal delimiter OBU, if present, SHOULD be removed when transmitting,
